@@ -39,7 +39,10 @@ class Twin:
         if not line:
             self.close(kill=True)
             raise TwinError("twin died")
-        return json.loads(line)
+        res = json.loads(line)
+        if res.get("one_shot"):
+            self.close(kill=True)
+        return res
 
     def fresh_process_call(self, job):
         """One job in a brand-new process (true 'fresh process' oracle)."""
